@@ -8,6 +8,8 @@
      comp, inst, io               arguments of render (io = [utf8, ansi, verb])
      ids     after make/custom/align: for every existing style object, the identity of the text a fixed table shows
              when rendered with it now (equal numbers <=> equal text, interned by the driver)
+     refs    after make/custom/align: for every style object the identity of the text a fresh process shows for a style
+             with this own history alone, or 0 when the driver took no reference
      fields  after make/custom/align: the attribute values read from every style object (A-layer comparison only)
      id      for render: identity of the rendered text
      ref     for render: identity of the text that a fresh process shows for an equally built component on an
@@ -32,7 +34,8 @@ StyleClauses(e) ==
   LET new == {[h |-> own'[s], id |-> e.ids[s], kind |-> styles'[s].kind] : s \in 1..Len(styles')}
       all == pts \cup new
       bad == {p \in new : \E q \in all : q.h = p.h /\ q.id # p.id}
-  IN /\ Check(tid, l, "H.ids", "", Len(e.ids) = Len(styles'))
+             \cup {p \in new : \E s \in 1..Len(styles') : own'[s] = p.h /\ e.refs[s] # 0 /\ e.refs[s] # e.ids[s]}
+  IN /\ Check(tid, l, "H.ids", "", Len(e.ids) = Len(styles') /\ Len(e.refs) = Len(styles'))
      /\ Check(tid, l, "P.noalias", IF bad = {} THEN "" ELSE (CHOOSE p \in bad : TRUE).kind, bad = {})
      /\ Note(tid, l, "A.heap", e.fields = AllEffective')
      /\ pts' = all /\ rpts' = rpts
